@@ -10,6 +10,7 @@ import XyzModel.DrvNum
 import XyzModel.DrvScript
 import XyzModel.DrvData
 import XyzModel.DrvPlot
+import XyzModel.VarDims
 /-! JSON-lines driver over the executable models (DESIGN.md Appendix B). One request per line, one reply per line. -/
 open Lean
 
@@ -413,6 +414,44 @@ def opCrop (j : Json) : Json :=
     (s', acc.2.push (Json.mkObj [("o", o), ("ls", lsJson s')]))) (({} : Crop.St (List Sym)), #[])
   Json.mkObj [("obs", Json.arr obs)]
 
+
+/-! ### op `vardims`: `parse_var_dims` on an explicit spelling -/
+section VarDimsOp
+open VarDims
+
+def atomOfJson (j : Json) : Atom :=
+  match j with
+  | .str x => .s x
+  | .arr a => .t (a.toList.map fun e => match e with | .str x => x | _ => "?")
+  | _ => .s "?"
+
+def elemOfJson (j : Json) : Elem :=
+  match j with
+  | .str x => .s x
+  | .arr a => .t (a.toList.map atomOfJson)
+  | _ => .s "?"
+
+def atomJson : Atom → Json
+  | .s x => Json.str x
+  | .t l => Json.arr (l.map Json.str).toArray
+
+def opVarDims (j : Json) : Json :=
+  let names : Option (List String) := (j.getObjValAs? (List String) "names").toOption
+  let spj := (j.getObjVal? "sp").toOption.getD Json.null
+  let sp : Spelling := match getStr spj "k" with
+    | "str" => .str (getStr spj "d")
+    | "list" => .list ((getArr spj "elems").map elemOfJson)
+    | "dict" => .dict ((getArr spj "items").map fun it =>
+        match it with
+        | .arr a => (atomOfJson (a.getD 0 Json.null), atomOfJson (a.getD 1 Json.null))
+        | _ => (.s "?", .s "?"))
+    | _ => .none
+  match parse names sp with
+  | .error _ => err "ValueError"
+  | .ok m => Json.mkObj [("map", Json.arr (m.map fun p =>
+      Json.arr #[Json.str p.1, Json.arr (p.2.map atomJson).toArray]).toArray)]
+end VarDimsOp
+
 def handle (j : Json) : Json :=
   match getStr j "op" with
   | "batch" => opBatch j
@@ -422,6 +461,7 @@ def handle (j : Json) : Json :=
   | "sampler" => opSampler j
   | "fstrace" => opFsTrace j
   | "fssched" => opFsSched j
+  | "vardims" => opVarDims j
   | "ping" => Json.mkObj [("pong", true)]
   | o =>
     match DrvNum.handleNum o j with
